@@ -27,8 +27,12 @@ func main() {
 		if err != nil {
 			return err
 		}
-		g := &gctx{svc: svc, ss: ss, l: l}
-		for _, f := range []func() error{g.consts, g.perf, g.natTimeout, g.mtu, g.pskLengths, g.policies, g.filterSize, g.directTargetOnly, g.defaultClient, g.legacy} {
+		rt, err := c.Load("router")
+		if err != nil {
+			return err
+		}
+		g := &gctx{svc: svc, ss: ss, rt: rt, l: l}
+		for _, f := range []func() error{g.consts, g.perf, g.natTimeout, g.mtu, g.pskLengths, g.policies, g.filterSize, g.directTargetOnly, g.defaultClient, g.legacy, g.setNames} {
 			if err := f(); err != nil {
 				return err
 			}
@@ -38,7 +42,7 @@ func main() {
 }
 
 type gctx struct {
-	svc, ss *gen.Pkg
+	svc, ss, rt *gen.Pkg
 	l       *gen.Lean
 }
 
@@ -741,5 +745,49 @@ func (g *gctx) legacy() error {
 		return fmt.Errorf("ServerConfig.Initialize: unrecognised legacy TCP listener conversion %q", tcp)
 	}
 	g.l.BoolDef("legacyAppendsListeners", true, "ServerConfig.Initialize / Config.Migrate: enableTCP/enableUDP append one listener built from the single-listener fields (natTimeoutSec seconds)")
+	return nil
+}
+
+// ---- router: are domain set / prefix set names checked for duplicates? ----
+
+func (g *gctx) setNames() error {
+	fd, err := g.rt.Func("*Config", "Router")
+	if err != nil {
+		return err
+	}
+	for _, x := range []struct{ rng, v, m, lean, what string }{
+		{"rc.DomainSets", "dsc", "domainSetMap", "domainSetNamesUnique", "domain set"},
+		{"rc.PrefixSets", "psc", "prefixSetMap", "prefixSetNamesUnique", "prefix set"},
+	} {
+		var loop *ast.RangeStmt
+		ast.Inspect(fd.Body, func(n ast.Node) bool {
+			if rs, ok := n.(*ast.RangeStmt); ok && g.rt.Src(rs.X) == x.rng {
+				loop = rs
+			}
+			return true
+		})
+		if loop == nil {
+			return fmt.Errorf("router.Config.Router: loop over %s not found", x.rng)
+		}
+		checked, stored := false, false
+		for i, st := range stmtsMentioning(g.rt, loop.Body, x.m) {
+			src := g.rt.Src(st)
+			switch {
+			case regexp.MustCompile(`^if _, ok := ` + x.m + `\[` + x.v + `\.Name\]; ok \{ return nil, fmt\.Errorf\(.*\) \}$`).MatchString(src):
+				if i != 0 || g.rt.Src(loop.Body.List[0]) != src {
+					return fmt.Errorf("router.Config.Router: duplicate check of %s names is not the first statement of the loop", x.what)
+				}
+				checked = true
+			case regexp.MustCompile(`^` + x.m + `\[` + x.v + `\.Name\] = \w+$`).MatchString(src):
+				stored = true
+			default:
+				return fmt.Errorf("router.Config.Router: unrecognised statement about %s: %q", x.m, src)
+			}
+		}
+		if !stored {
+			return fmt.Errorf("router.Config.Router: %s is not filled by name", x.m)
+		}
+		g.l.BoolDef(x.lean, checked, "router.Config.Router: a second "+x.what+" of the same name is rejected")
+	}
 	return nil
 }
